@@ -343,7 +343,9 @@ UF = {n: z3.Function(n, R, R) for n in
 POW = z3.Function("pow", R, R, R)
 
 _TRUE_FN = {
-    "exp": math.exp, "log": math.log, "tanh": math.tanh, "arctanh": math.atanh,
+    "exp": math.exp, "log": math.log, "tanh": math.tanh,
+    # real part of the complex arctanh (what `np.arctanh(u + 0j).real` returns)
+    "arctanh": lambda u: 0.5 * math.log(abs((1 + u) / (1 - u))),
     "cosh": math.cosh, "sinh": math.sinh, "cos": math.cos, "sin": math.sin, "tan": math.tan,
     "arctan": math.atan, "sech2": lambda x: 1.0 / math.cosh(x) ** 2,
     "pow": lambda b, e: b ** e,
